@@ -42,10 +42,12 @@ def tree(n):
     if not isinstance(n, oal.Node):
         return repr(n)
     d = [type(n).__name__]
+    seen = {}
     for k, v in sorted(vars(n).items()):
         if k in ('position', 'character_stream', 'children'):
             continue
         if isinstance(v, oal.Node):
+            seen[id(v)] = k
             d.append((k, tree(v)))
         elif isinstance(v, str) and k in ('cardinality', 'operator') or (k == 'value' and isinstance(n, oal.BooleanNode)):
             d.append((k, v.lower()))
@@ -53,7 +55,8 @@ def tree(n):
             d.append((k, v))
     ch = getattr(n, 'children', None)
     if ch:
-        d.append(('children', [tree(c) for c in ch]))
+        # a child that is also a named field is not walked twice (exponential in the nesting depth): its place is recorded
+        d.append(('children', [('field', seen[id(c)]) if id(c) in seen else tree(c) for c in ch]))
     return d
 
 
